@@ -1980,7 +1980,6 @@ func checkAttributeNamesNotSpecialCased(w *World, r *Report) {
 	r.floor("attribute-name values of GetAttr nodes", nRoots, 1)
 }
 
-
 // rendersParam: g invokes Render on (an element of) its parameter p.
 func rendersParam(g *ssa.Function, p *ssa.Parameter) bool {
 	found := false
@@ -2157,7 +2156,6 @@ func checkLiteralsAreFresh(w *World, r *Report) {
 	}
 	r.floor("returns of list/hash literal values", n, 2)
 }
-
 
 // allocatedHere: v is a container created by the running call (make, a composite literal, append
 // to such, or a helper of the package every result of which is) — stricter than C18's "fresh in
